@@ -4,8 +4,8 @@ import math
 
 import numpy as np
 
-from ticcmon import instrument
-from ticcmon.checks import common
+from ticcmon import e2e_check, instrument
+from ticcmon.checks import common, e2e_common as ec
 from ticcmon.oracles import toeplitz as tz
 from ticcmon.workloads import data as wd
 
@@ -25,8 +25,11 @@ LAM_KINDS = ["zero", "scalar", "scalar", "matrix_const", "matrix_rand"]
 CALLBACKS = [None, None, "balance", "walk"]
 
 
+E2E_MIX = {"single:small": 3, "single:general": 2, "single:repop": 1, "joint:joint": 1}
+
+
 def plan(tier, seed):
-    specs = []
+    specs = ec.plan_e2e(seed, 202, E2E_MIX, 48 if tier == "quick" else 600, nwcap=12 if tier == "quick" else 24)
     if tier == "quick":
         for p in range(13):
             specs.append(dict(name="cond-%d" % p, mode="interp", what="conditional", n=32, nwmax=20, seed=[seed, 2, p]))
@@ -203,6 +206,10 @@ def gen_case(rng, spec, i, unconditional):
 
 
 def run_shard(spec, res):
+    if spec["what"] in ("e2e", "fixture"):
+        # every optimisation task of traced runs: its MRF must pass the certificate against this round's covariance of its own cluster
+        ec.run_e2e_shard(spec, res, ("C02",), lambda run, I: "t" if I.counts.get("task_certificates", 0) else None, coverage_props=())
+        return
     from fast_ticc import admm
     instrument.install_admm_monitor()
     rng = np.random.default_rng(spec["seed"])
@@ -223,6 +230,9 @@ def run_shard(spec, res):
 
 
 def replay(case, res):
+    if case.get("front"):
+        e2e_check.replay_case(res, case, ("C02",))
+        return
     from fast_ticc import admm
     instrument.install_admm_monitor()
     out = run_problem(res, admm, case)
@@ -237,6 +247,8 @@ def finalize(merged, tier):
     if c.get("certificates", 0) < need:
         out["inconclusive"].append("only %d certificates evaluated (need %d): stopped=%d no_exit_record=%d" % (
             c.get("certificates", 0), need, c.get("stopped", 0), c.get("no_exit_record", 0)))
+    if c.get("task_certificates", 0) < (150 if tier == "quick" else 2000):
+        out["inconclusive"].append("only %d per-task certificates inside traced runs" % c.get("task_certificates", 0))
     if c.get("budget_exhausted", 0) < 3:
         out["inconclusive"].append("the 'did not stop => no claim' branch was exercised only %d times" % c.get("budget_exhausted", 0))
     out["max_ratio_kkt"] = c.get("max_ratio_kkt_x1000", 0) / 1000.0
